@@ -115,7 +115,7 @@ static char judge_derived(ObjectHeaderBase * q, ObjectHeaderBase * o, const std:
         differing++;
         differingBytes += L.n;
         std::vector<uint8_t> keep(L.p, L.p + L.n);
-        for (size_t x = 0; x < L.n; x++) L.p[x] ^= 0xff;
+        refl::Locator::flip(L, 0xff);
         MemFile mm;
         try { q->write(mm); } catch (...) {}
         memcpy(L.p, keep.data(), L.n);
@@ -150,7 +150,8 @@ static FrameResult frame_record(ObjectHeaderBase * o, uint32_t code, const std::
         for (size_t i = 0; i < lo.locs.size(); i++) {
             auto & L = lo.locs[i];
             std::vector<uint8_t> flipped(L.n);
-            for (size_t x = 0; x < L.n; x++) flipped[x] = L.p[x] = (uint8_t) (L.p[x] ^ 0xff);
+            refl::Locator::flip(L, 0xff);
+            memcpy(flipped.data(), L.p, L.n);
             MemFile mm;
             try { o->write(mm); } catch (...) {}
             if (memcmp(L.p, flipped.data(), L.n) != 0) owned.insert(L.name);
@@ -243,7 +244,7 @@ static FrameResult frame_record(ObjectHeaderBase * o, uint32_t code, const std::
                 if (L.name == "flags" || true) {
                     // sensitivity: flip the member, re-encode, restore
                     std::vector<uint8_t> keep(L.p, L.p + L.n);
-                    for (size_t k = 0; k < L.n; k++) L.p[k] ^= 0x5a;
+                    refl::Locator::flip(L, 0x5a);
                     MemFile mm;
                     try { o->write(mm); } catch (...) {}
                     memcpy(L.p, keep.data(), L.n);
@@ -542,7 +543,8 @@ int main(int argc, char ** argv) {
                     refl::visit_dyn(o, lo);
                     for (auto & L : lo.locs) {
                         std::vector<uint8_t> keep(L.p, L.p + L.n), flipped(L.n);
-                        for (size_t x = 0; x < L.n; x++) flipped[x] = L.p[x] = (uint8_t) (L.p[x] ^ 0xff);
+                        refl::Locator::flip(L, 0xff);
+            memcpy(flipped.data(), L.p, L.n);
                         MemFile mm;
                         try { o->write(mm); } catch (...) {}
                         if (memcmp(L.p, flipped.data(), L.n) != 0) g_ownedMembers.insert(L.name);
